@@ -25,6 +25,31 @@ N_SOURCES = len(TEXTS)
 FILE_SOURCES = {6: ("TextFileSource", "text_source_6.sql"), 7: ("FileSource", "binary_source_7.xml")}
 
 
+TEXTS += ["select v from variants\n", "select v from variants\n"]
+N_SOURCES = len(TEXTS)
+# 9/10: a user's own Source subclass that overrides fqn: one uri and type, two different sources
+VARIANT_SOURCES = {9: "a", 10: "b"}
+_VARIANT_CLS: list = []
+
+
+def variant_source_class():
+    if not _VARIANT_CLS:
+        from dataclasses import dataclass
+
+        from pyoak.origin import TextSource
+
+        @dataclass(frozen=True)
+        class VariantSource(TextSource):
+            variant: str = ""
+
+            @property
+            def fqn(self) -> str:
+                return f"{self.source_uri}#{self.variant}"
+
+        _VARIANT_CLS.append(VariantSource)
+    return _VARIANT_CLS[0]
+
+
 def _source_file(i: int):
     """The file behind a file source: created once per machine under the temp dir (atomic rename), same content every time."""
     import os
@@ -75,6 +100,8 @@ def fresh_source(i: int) -> Any:
     if i in SOURCE_DESCR:
         _, uri, typ = SOURCE_DESCR[i]
         return TextSource(uri, typ, _raw=TEXTS[i])
+    if i in VARIANT_SOURCES:
+        return variant_source_class()("variants/x.sql", "sql", _raw=TEXTS[i], variant=VARIANT_SOURCES[i])
     if i in FILE_SOURCES:
         from pyoak.origin import FileSource, TextFileSource
 
@@ -201,6 +228,8 @@ def _canon_src_idx(i: int) -> tuple:
         return SOURCE_DESCR[i]
     if i in FILE_SOURCES:
         return (FILE_SOURCES[i][0], _source_file(i).as_posix(), "File")
+    if i in VARIANT_SOURCES:
+        return ("VariantSource", "variants/x.sql", "sql", VARIANT_SOURCES[i])
     return ("MemoryTextSource", f"mem://verif/{i}", "<memory>")
 
 
@@ -211,6 +240,8 @@ def canon_source(s: Any) -> tuple:
     if tn == "SourceSet":
         return ("SourceSet", tuple(canon_source(x) for x in s.sources))
     # the raw text is not part of a source's identity (compare=False) and is not serialized
+    if tn == "VariantSource":
+        return (tn, s.source_uri, s.source_type, s.variant)
     return (tn, s.source_uri, s.source_type)
 
 
